@@ -47,11 +47,15 @@ type Op struct {
 	Client string     `json:"client"`
 	Msg    byte       `json:"msg_type"` // 1 solicit, 3 request, 5 renew
 	Relay  int        `json:"relay_depth"`
-	IAPDs  [][]string `json:"iapds"` // per IA_PD: list of symbolic hints
+	Link   int        `json:"relay_link,omitempty"` // which relay agent forwarded it (link-address variant 0..2)
+	IAPDs  [][]string `json:"iapds"`                // per IA_PD: list of symbolic hints
 	NoCID  bool       `json:"no_client_id,omitempty"`
-	Age    bool       `json:"age,omitempty"`   // not a message: all leases run out (time passes)
-	Long   bool       `json:"long,omitempty"`  // age: two days instead of an hour
-	Timers string     `json:"t1_t2,omitempty"` // "" = 0/0; "t1>t2" = 3600/1800; "max" = ffffffff/ffffffff
+	Age    bool       `json:"age,omitempty"`                // not a message: all leases run out (time passes)
+	Long   bool       `json:"long,omitempty"`               // age: two days instead of an hour
+	XCode  int        `json:"extra_option,omitempty"`       // one more top-level option (code) ...
+	XData  string     `json:"extra_option_data,omitempty"`  // ... with this payload (hex)
+	XFirst bool       `json:"extra_option_first,omitempty"` // placed before the IA_PDs instead of after
+	Timers string     `json:"t1_t2,omitempty"`              // "" = 0/0; "t1>t2" = 3600/1800; "max" = ffffffff/ffffffff
 }
 
 type Pool struct {
@@ -304,6 +308,12 @@ func (s *Sys) Ops() []Op {
 				}
 			}
 		}
+		// the same client reached through different relay agents (and directly)
+		ops = append(ops, Op{Client: c, Msg: 1, Relay: 1, Link: 1, IAPDs: [][]string{{}}})
+		if _, ok := s.resolve(c, "own1"); ok {
+			ops = append(ops, Op{Client: c, Msg: 5, Relay: 1, Link: 2, IAPDs: [][]string{{"own1"}}})
+			ops = append(ops, Op{Client: c, Msg: 3, Relay: 2, Link: 1, IAPDs: [][]string{{}}})
+		}
 		ops = append(ops, Op{Client: c, Msg: 1, IAPDs: [][]string{}})       // no IA_PD at all
 		ops = append(ops, Op{Client: c, Msg: 1, IAPDs: [][]string{{}, {}}}) // two IA_PDs
 		ops = append(ops, Op{Client: c, Msg: 1, IAPDs: [][]string{{"free1"}, {"len-page"}, {}}})
@@ -341,7 +351,7 @@ func (s *Sys) Ops() []Op {
 }
 
 func (s *Sys) concretize(o Op) Op {
-	n := Op{Client: o.Client, Msg: o.Msg, Relay: o.Relay, NoCID: o.NoCID, Age: o.Age, Long: o.Long, Timers: o.Timers, IAPDs: [][]string{}}
+	n := Op{Client: o.Client, Msg: o.Msg, Relay: o.Relay, NoCID: o.NoCID, Age: o.Age, Long: o.Long, Timers: o.Timers, Link: o.Link, XCode: o.XCode, XData: o.XData, XFirst: o.XFirst, IAPDs: [][]string{}}
 	for _, hs := range o.IAPDs {
 		c := []string{}
 		for _, h := range hs {
@@ -392,6 +402,10 @@ func buildReq(o Op) []byte {
 	if o.Msg != 1 {
 		m.Opts = append(m.Opts, pkt.Opt6{Code: 2, Data: []byte{0, 3, 0, 1, 0, 0xde, 0xad, 0xbe, 0xef, 0}})
 	}
+	xd, _ := hex.DecodeString(o.XData)
+	if o.XCode != 0 && o.XFirst {
+		m.Opts = append(m.Opts, pkt.Opt6{Code: uint16(o.XCode), Data: xd})
+	}
 	for i, hs := range o.IAPDs {
 		d := binary.BigEndian.AppendUint32(nil, iaidOf(i))
 		switch o.Timers {
@@ -413,10 +427,17 @@ func buildReq(o Op) []byte {
 		}
 		m.Opts = append(m.Opts, pkt.Opt6{Code: 25, Data: d})
 	}
+	if o.XCode != 0 && !o.XFirst {
+		m.Opts = append(m.Opts, pkt.Opt6{Code: uint16(o.XCode), Data: xd})
+	}
 	b := m.Bytes()
 	for i := 0; i < o.Relay; i++ {
 		l := pkt.Relay6{Type: 12, Inner: b}
 		l.Link[0], l.Peer[0], l.Peer[1] = 0x20, 0xfe, 0x80
+		if o.Link != 0 {
+			// another relay agent on the same link: its own interface address
+			copy(l.Link[:], net.ParseIP(fmt.Sprintf("2001:db8:%d::1", o.Link)).To16())
+		}
 		b = l.Bytes()
 	}
 	return b
@@ -852,6 +873,7 @@ func run(r *ev.Run, id string) {
 		r.Sample("graph", map[string]interface{}{"pool": p, "clients": nc, "states": res.States, "transitions": res.Transitions, "depth": res.Depth, "fixpoint": res.Fixpoint, "merge_checks": res.MergeChecks})
 	}
 	manyLeases(r, id)
+	irrelevantOptions(r, id)
 	if id == "C08" {
 		runSched(r)
 	}
@@ -860,6 +882,35 @@ func run(r *ev.Run, id string) {
 // manyLeases: one client collects 1..12 prefixes (beyond what the graphs can hold) on a
 // 32-block pool; after each acquisition a hint-less IA_PD and an exact renewal of the first
 // and of the newest prefix run through all C08/C09 oracles.
+// irrelevantOptions: what a client is delegated depends on its identifier and its IA_PDs.
+// For every other option code in three payload shapes (placed before or after the IA_PDs) two
+// clients solicit and renew with and without it on a fresh 4-block pool; all oracles of Apply
+// stay on (same prefix again, disjoint across clients, every IA_PD answered).
+func irrelevantOptions(r *ev.Run, id string) {
+	p := Pool{"2001:db8:0:10::/62", 64}
+	for i, x := range pkt.Extra6() {
+		xd := hex.EncodeToString(x.Data)
+		with := func(c string, msg byte, hs ...string) Op {
+			return Op{Client: c, Msg: msg, XCode: int(x.Code), XData: xd, XFirst: i%2 == 0, IAPDs: [][]string{hs}}
+		}
+		if _, err := dhcpv6.FromBytes(buildReq(with("A", 1))); err != nil {
+			// the codec rejects this payload for this option code: the server drops such a
+			// datagram before any plugin sees it
+			r.Add("irrelevant_option_variants_unparseable", 1)
+			continue
+		}
+		s := NewSys(r, id, p, 2, false)
+		hist := []Op{with("A", 1), {Client: "A", Msg: 1, IAPDs: [][]string{{}}}, with("B", 1), with("A", 5, "own1"), {Client: "B", Msg: 5, IAPDs: [][]string{{"own1"}}}, with("B", 3)}
+		for _, op := range hist {
+			s.Apply(s.concretize(op), true)
+			if s.Terminal() {
+				break
+			}
+		}
+		r.Add("irrelevant_option_histories", 1)
+	}
+}
+
 func manyLeases(r *ev.Run, id string) {
 	s := NewSys(r, id, Pool{"2001:db8:0:20::/59", 64}, 1, false)
 	first := ""
